@@ -14,5 +14,12 @@ class BoundCallable(CanCustomize, object):
             # Update wrapper if we can, but not fatal if we can't
             pass
 
+        # Executors chained onto this callable (with_retry etc.) inherit
+        # the name of the bound executor, as they do when chained directly.
+        for name_attr in ("_name", "_CustomizableThreadPoolExecutor__name"):
+            if hasattr(executor, name_attr):
+                self._name = getattr(executor, name_attr)
+                break
+
     def __call__(self, *args, **kwargs):
         return self.__executor.submit(self.__fn, *args, **kwargs)
